@@ -387,3 +387,166 @@ pub fn solend_entry(_pid: &Pubkey, accounts: &[AccountInfo], data: &[u8]) -> Pro
     obligation.try_borrow_mut_data()?.copy_from_slice(&od);
     Ok(())
 }
+
+// ====================================================================== Drift stand-in
+use drift_mocks::state::{MinimalSpotMarket, MinimalUser, SpotBalanceType};
+pub const DRIFT: Pubkey = solana_sdk::pubkey!("dRiftyHA39MWEi3m9aunc5MzRF1JYuBsbn6VPcn33UH");
+pub const D_DEPOSIT: [u8; 8] = [242, 35, 198, 137, 82, 225, 242, 182];
+pub const D_WITHDRAW: [u8; 8] = [183, 18, 70, 156, 148, 109, 161, 34];
+pub const D_UPDATE_INTEREST: [u8; 8] = [39, 166, 139, 243, 158, 165, 155, 225];
+pub static DRIFT_CALLS: AtomicU64 = AtomicU64::new(0);
+/// 0 honest; 1 = cumulative interest is NOT brought up to date by update_spot_market_cumulative_interest
+pub static DRIFT_FAULT: AtomicU64 = AtomicU64::new(0);
+
+pub fn drift_signer() -> (Pubkey, u8) {
+    Pubkey::find_program_address(&[b"drift_signer"], &DRIFT)
+}
+pub fn drift_user_key(authority: &Pubkey) -> Pubkey {
+    Pubkey::find_program_address(&[b"user", authority.as_ref(), &0u16.to_le_bytes()], &DRIFT).0
+}
+pub fn drift_user_stats_key(authority: &Pubkey) -> Pubkey {
+    Pubkey::find_program_address(&[b"user_stats", authority.as_ref()], &DRIFT).0
+}
+pub fn read_spot_market(data: &[u8]) -> Option<MinimalSpotMarket> {
+    let n = std::mem::size_of::<MinimalSpotMarket>();
+    if data.len() < 8 + n || data[..8] != drift_mocks::state::SPOT_MARKET_DISCRIMINATOR {
+        return None;
+    }
+    Some(bytemuck::pod_read_unaligned(&data[8..8 + n]))
+}
+pub fn spot_market_bytes(m: &MinimalSpotMarket) -> Vec<u8> {
+    let mut v = drift_mocks::state::SPOT_MARKET_DISCRIMINATOR.to_vec();
+    v.extend_from_slice(bytemuck::bytes_of(m));
+    v
+}
+pub fn read_drift_user(data: &[u8]) -> Option<MinimalUser> {
+    let n = std::mem::size_of::<MinimalUser>();
+    if data.len() < 8 + n || data[..8] != drift_mocks::state::USER_DISCRIMINATOR {
+        return None;
+    }
+    Some(bytemuck::pod_read_unaligned(&data[8..8 + n]))
+}
+pub fn drift_user_bytes(u: &MinimalUser) -> Vec<u8> {
+    let mut v = drift_mocks::state::USER_DISCRIMINATOR.to_vec();
+    v.extend_from_slice(bytemuck::bytes_of(u));
+    v
+}
+pub fn drift_position_index(market_index: u16) -> usize {
+    if market_index == 0 {
+        0
+    } else {
+        1
+    }
+}
+/// 10^(19 - decimals): scaled balances carry 9 decimals, cumulative interest 10
+pub fn drift_precision_increase(decimals: u32) -> Option<u128> {
+    if decimals > 19 {
+        return None;
+    }
+    Some(10u128.pow(19 - decimals))
+}
+/// venue rounding: deposits floor, withdrawals round the burnt balance up by one unit
+pub fn drift_scaled(m: &MinimalSpotMarket, amount: u64, round_up: bool) -> Option<u64> {
+    let cum = u128::from_le_bytes(m.cumulative_deposit_interest);
+    if cum == 0 {
+        return None;
+    }
+    let q: BigUint = BigUint::from(amount) * BigUint::from(drift_precision_increase(m.decimals)?) / BigUint::from(cum);
+    let mut b = q.to_u64()?;
+    if round_up && b != 0 {
+        b = b.checked_add(1)?;
+    }
+    Some(b)
+}
+
+pub fn drift_entry(_pid: &Pubkey, accounts: &[AccountInfo], data: &[u8]) -> ProgramResult {
+    if data.len() < 8 {
+        return Err(E_BAD);
+    }
+    DRIFT_CALLS.fetch_add(1, Ordering::Relaxed);
+    let d: [u8; 8] = data[..8].try_into().unwrap();
+    let now = {
+        use solana_sdk::sysvar::Sysvar;
+        solana_sdk::clock::Clock::get()?.unix_timestamp
+    };
+    if d == D_UPDATE_INTEREST {
+        let acc = accounts.get(1).ok_or(E_BAD)?;
+        if acc.owner != &DRIFT {
+            return Err(E_BAD);
+        }
+        let mut m = read_spot_market(&acc.try_borrow_data()?).ok_or(E_BAD)?;
+        if DRIFT_FAULT.load(Ordering::Relaxed) != 1 {
+            m.last_interest_ts = now.max(0) as u64;
+        }
+        acc.try_borrow_mut_data()?.copy_from_slice(&spot_market_bytes(&m));
+        return Ok(());
+    }
+    if d != D_DEPOSIT && d != D_WITHDRAW {
+        return Err(E_BAD);
+    }
+    let dep = d == D_DEPOSIT;
+    let fixed = if dep { 7 } else { 8 };
+    if accounts.len() < fixed + 2 || data.len() < 8 + 2 + 8 + 1 {
+        return Err(E_BAD);
+    }
+    let market_index = u16::from_le_bytes(data[8..10].try_into().unwrap());
+    let amount = u64::from_le_bytes(data[10..18].try_into().unwrap());
+    let user = &accounts[1];
+    let authority = &accounts[3];
+    let vault = &accounts[4];
+    let (user_ta, token_program, signer_acc) = if dep { (&accounts[5], &accounts[6], None) } else { (&accounts[6], &accounts[7], Some(&accounts[5])) };
+    // remaining accounts: [oracle..] spot market .. mint (last)
+    let rem = &accounts[fixed..];
+    let sm_acc = rem.iter().find(|a| a.owner == &DRIFT && a.try_borrow_data().map(|d| d.len() >= 8 && d[..8] == drift_mocks::state::SPOT_MARKET_DISCRIMINATOR).unwrap_or(false)).ok_or(E_BAD)?;
+    let mint = rem.last().ok_or(E_BAD)?;
+    if !authority.is_signer || user.owner != &DRIFT {
+        return Err(E_BAD);
+    }
+    let mut m = read_spot_market(&sm_acc.try_borrow_data()?).ok_or(E_BAD)?;
+    let mut u = read_drift_user(&user.try_borrow_data()?).ok_or(E_BAD)?;
+    if u.authority != *authority.key || m.market_index != market_index || m.vault != *vault.key || m.mint != *mint.key {
+        return Err(E_BAD);
+    }
+    // the venue works off interest that was brought up to date in this second
+    if (m.last_interest_ts as i64) < now {
+        return Err(E_STALE);
+    }
+    let idx = drift_position_index(market_index);
+    let dec = m.decimals as u8;
+    let pos = &mut u.spot_positions[idx];
+    if pos.scaled_balance > 0 && (pos.market_index != market_index || pos.balance_type != SpotBalanceType::Deposit) {
+        return Err(E_BAD);
+    }
+    let total = u128::from_le_bytes(m.deposit_balance);
+    if dep {
+        let inc = drift_scaled(&m, amount, false).ok_or(E_MATH)?;
+        transfer_checked(token_program, user_ta, mint, vault, authority, amount, dec, None)?;
+        pos.scaled_balance = pos.scaled_balance.checked_add(inc).ok_or(E_MATH)?;
+        pos.market_index = market_index;
+        pos.balance_type = SpotBalanceType::Deposit;
+        pos.cumulative_deposits = pos.cumulative_deposits.saturating_add(amount.min(i64::MAX as u64) as i64);
+        m.deposit_balance = total.checked_add(inc as u128).ok_or(E_MATH)?.to_le_bytes();
+    } else {
+        let signer_acc = signer_acc.ok_or(E_BAD)?;
+        let (sk, sb) = drift_signer();
+        if signer_acc.key != &sk {
+            return Err(E_BAD);
+        }
+        let dec_bal = drift_scaled(&m, amount, true).ok_or(E_MATH)?;
+        if dec_bal > pos.scaled_balance {
+            return Err(E_FUNDS);
+        }
+        let bump = [sb];
+        let seeds: [&[u8]; 2] = [b"drift_signer", &bump];
+        transfer_checked(token_program, vault, mint, user_ta, signer_acc, amount, dec, Some(&seeds))?;
+        pos.scaled_balance -= dec_bal;
+        pos.cumulative_deposits = pos.cumulative_deposits.saturating_sub(amount.min(i64::MAX as u64) as i64);
+        if pos.scaled_balance == 0 {
+            pos.cumulative_deposits = 0;
+        }
+        m.deposit_balance = total.saturating_sub(dec_bal as u128).to_le_bytes();
+    }
+    sm_acc.try_borrow_mut_data()?.copy_from_slice(&spot_market_bytes(&m));
+    user.try_borrow_mut_data()?.copy_from_slice(&drift_user_bytes(&u));
+    Ok(())
+}
